@@ -346,4 +346,8 @@ theorem fromJson?_toJson (p : Policy) (hw : p.mapsWf) (hs : p.hasOneStar = false
     policyField_statement, optVersion_optVersionJson, optString_optStrJson,
     statementsOfJson_statementsJson p.statement hw hs']
 
+theorem fromJson_ok_iff (j : Json) (p : Policy) : fromJson j = .ok p ↔ fromJson? j = some p := by
+  unfold fromJson
+  cases fromJson? j <;> simp
+
 end S3V.Policy
